@@ -128,7 +128,7 @@ def emit_reader_tie(h, results, ident):
         if "tape_len" not in o or o["tape_len"] % 512 != 0 or "rows" not in o or "tree" not in o:
             return None
         if i > sw:
-            newm = [m for m in o.get("members", []) if m["start"] >= prev_blocks]
+            newm = [m for m in (o.get("members") or []) if m["start"] >= prev_blocks]
             now = -(i + 1)
             h2.append("(%s, {| ev_hb := %s; ev_enc := %s; ev_now := %s |})" % (
                 hist.cq_call(h, calls[i], now), hist.cq_list([str(m["hb"]) for m in newm]), hist.cq_list([str(m["size"]) for m in newm if m["size"] > 0]), hist.cq_Z(now)))
